@@ -207,7 +207,7 @@ func confCases(alg string) []ConfCase {
 		{Name: "rule-empty-override", Proto: full, EmptyOver: true},
 		{Name: "rule-excludes-alg", Proto: minimal, Override: &Assertions{Allowed: excl}},
 		{Name: "rule-reenables-alg", Proto: Assertions{Issuers: []string{iss1}, Allowed: excl}, Override: &Assertions{Allowed: []string{alg}}},
-		{Name: "rule-overrides-leeway-only", Proto: full, Override: &Assertions{Leeway: 1}},
+		{Name: "rule-overrides-leeway-only", Quick: true, Proto: full, Override: &Assertions{Leeway: 1}},
 		{Name: "rule-overrides-issuers-only", Proto: full, Override: &Assertions{Issuers: []string{iss3}}},
 		{Name: "rule-overrides-cache-ttl-only", Proto: full, OverExtra: map[string]any{"cache_ttl": "0s"}},
 	}
